@@ -7,4 +7,4 @@ for prop in $PROPS; do
   out=$(QV_NO_EVIDENCE=1 /verif/check "$prop" --tier quick 2>&1); code=$?
   if [ $code -ne 0 ]; then echo "  $prop exit=$code"; echo "$out" | grep -E "rule=|ANALYSIS-ERROR" | sed -E 's/^ +//; s/\(rank [0-9].*//; s/: input per-.*: /: .. /' | cut -c1-230 | sort | uniq -c | sort -rn | head -${MAXL:-14} | sed 's/^/      /'; fi
 done
-git -C /repo checkout -- .
+git -C /repo checkout -- .; git -C /repo clean -fdq optimum
